@@ -527,12 +527,19 @@ def Val.isEmptyGo : Val → Bool
   | .nat n => n == 0
   | .int i => i == 0
   | .bool b => !b
-  | .bytes b => b.isEmpty || b.all (· == 0)   -- slices: len 0; fixed arrays: all zero (IsZero)
+  | .bytes b => b.isEmpty   -- a slice is empty when its length is 0 (fixed arrays: `isEmptyAt`)
   | .text b => b.isEmpty
   | .list vs => vs.isEmpty
   | .nilp => true
   | .map ps => ps.isEmpty
   | _ => false
+
+/-- `isEmpty` at a field of schema `s`: a fixed-size array is empty when all its bytes are zero
+(`reflect.Value.IsZero`), a byte slice only when it has no bytes. -/
+def isEmptyAt (s : Schema) (v : Val) : Bool :=
+  match s, v with
+  | .fixed _, .bytes b => b.all (· == 0)
+  | _, v => v.isEmptyGo
 
 mutual
 /-- `cbor.Marshal` of the Go value a decoded `Val` stands for. `none` = Marshal error. -/
@@ -604,7 +611,7 @@ def encodeFields : Nat → Fields → List Val → Option (Nat × Bytes)
   | 0, _, _ => Option.none
   | _+1, .nil, [] => Option.some (0, [])
   | f+1, .cons s o fs, v :: vs =>
-    if o ∧ v.isEmptyGo then encodeFields f fs vs
+    if o ∧ isEmptyAt s v then encodeFields f fs vs
     else
       match encodeS f s v, encodeFields f fs vs with
       | Option.some a, Option.some (n, b) => Option.some (n + 1, a ++ b)
